@@ -94,5 +94,49 @@ def judge (G : α → List α) (ok : α → Bool) (U L : List α) (status : Nat)
   else
     decide (status = 0) && wellOrdered G events && completeRun L events && constructedOk ok events
 
+/-! ### modules without a post-init hook
+
+  README: `module_post_init` is optional.  A module without the hook (`hk m = false`) writes no
+  post-init event; everything else about it is unchanged.  C20's "its post-init runs … after
+  those of everything it depends on" then has to be read through such modules: a hooked module
+  is post-initialised after every *hooked* module it depends on **transitively** (the path may
+  lead through hook-less ones). -/
+
+/-- the log of a run in which only the modules with `hk m` have a post-init hook -/
+def hideHookless (hk : α → Bool) (events : List (Event α)) : List (Event α) :=
+  events.filter fun e => match e with
+    | .postInit m => hk m
+    | _ => true
+
+def okAtH (G : α → List α) (hk : α → Bool) (U : List α) (seen : List (Event α)) : Event α → Bool
+  | .postInit m =>
+    hk m && decide (Event.ctorEnd m ∈ seen) && decide (Event.postInit m ∉ seen) &&
+      (closure G U.length (G m)).all fun d => !hk d || decide (Event.postInit d ∈ seen)
+  | e => okAt G seen e
+
+def woH (G : α → List α) (hk : α → Bool) (U : List α) : List (Event α) → Bool
+  | [] => true
+  | e :: older => okAtH G hk U older e && woH G hk U older
+
+def wellOrderedH (G : α → List α) (hk : α → Bool) (U : List α) (events : List (Event α)) : Bool :=
+  woH G hk U events.reverse
+
+def lifeCompleteH (hk : α → Bool) (events : List (Event α)) (m : α) : Bool :=
+  decide (Event.ctorEnd m ∈ events) && (!hk m || decide (Event.postInit m ∈ events)) && decide (Event.dtor m ∈ events)
+
+def completeRunH (hk : α → Bool) (L : List α) (events : List (Event α)) : Bool :=
+  (L.all fun m => decide (Event.ctorBegin m ∈ events)) &&
+  events.all fun e => match e with
+    | .ctorBegin m => lifeCompleteH hk events m
+    | _ => true
+
+/-- what C20 demands of one observed run when some modules have no post-init hook -/
+def judgeH (G : α → List α) (ok : α → Bool) (hk : α → Bool) (U L : List α) (status : Nat)
+    (events : List (Event α)) : Bool :=
+  if mustAbort G ok U L then
+    decide (status ≠ 0) && !postInitOfCycleMember G U events
+  else
+    decide (status = 0) && wellOrderedH G hk U events && completeRunH hk L events && constructedOk ok events
+
 end
 end Iauthd.Module
